@@ -24,7 +24,10 @@ Clients == [sni : Names,
             resume : BOOLEAN,
             \* supported_versions extension: "sent" (every current client), "absent" (a TLS 1.2-or-earlier client that
             \* predates the extension: the versions then follow from legacy_version; only with vers 12 / 10-12)
-            sv : {"sent", "absent"}]
+            sv : {"sent", "absent"},
+            \* order of the extensions in the hello: as crypto/tls writes them, or reversed (any order is legal, RFC 8446
+            \* 4.2; only pre_shared_key must stay last)
+            order : {"native", "reversed"}]
 MatcherCfgs == [sni : {<<>>, <<"a.example.com">>, <<"*.wild.test">>, <<"b.example.com", "*.example.com">>},
                 alpn : {<<>>, <<"h2">>, <<"http/1.1", "acme-tls/1">>}]
 
